@@ -8,7 +8,7 @@ SYSINFO_C = os.path.join(cjob.REPO, 'src/host/layer23/src/common/sysinfo.c')
 SYSINFO_H = os.path.join(cjob.REPO, 'src/host/layer23/include/osmocom/bb/common/sysinfo.h')
 WINDOW_Q = [0, 1, 2, 3, 511, 512, 1022, 1023]
 META = dict(
-    functions=['sysinfo.c: gsm48_decode_sysinfo4 (verbatim text, real sysinfo.h/gsm_04_08.h; other IE decoders stubbed) as caller of the decoder', 'sysinfo.c: gsm48_decode_mobile_alloc (verbatim text extracted from the working tree by brace matching, compiled with the FREQ_TYPE_* macros read from sysinfo.h)'],
+    functions=['trx_if.c: trx_if_cmd_setfh (SETFH composed from the decoded list; real snprintf semantics, band plan of gsm_arfcn2freq10 incl. the PCS flag)', 'sysinfo.c: gsm48_decode_sysinfo4 (verbatim text, real sysinfo.h/gsm_04_08.h; other IE decoders stubbed) as caller of the decoder', 'sysinfo.c: gsm48_decode_mobile_alloc (verbatim text extracted from the working tree by brace matching, compiled with the FREQ_TYPE_* macros read from sysinfo.h)'],
     bounds=dict(quick='bitmap length len = 0..9, si4 in {0,1}; all 8*len bitmap bits symbolic (one variable per bit); cell allocation = symbolic membership of each ARFCN of the window %s (other ARFCNs absent), other mask bits of those entries symbolic; loops fully unrolled (1024 + 1024 + 64 iterations)' % WINDOW_Q,
                 thorough='as quick plus a cell allocation of 72 ARFCNs (the 8 above + 64 consecutive ones, all members): 1- and 2-octet bitmaps fully symbolic, and the 8-octet bitmap with its first and last octet symbolic and the six in between all ones, so that all 64 output entries are used'),
     stubs=['LOGP -> empty', 'struct gsm_sysinfo_freq reduced to its mask octet (sizeof read from the compiler)', 'VLA via llvm.stacksave/alloca with the concrete size of each run'],
@@ -36,11 +36,17 @@ def jobs(tier, seed):
         out.append(('si4-call-site.chan-desc.len=%d' % L, 'c_si4', dict(length=L, chan_desc=True)))
         for cd in (False, True):
             out.append(('si4-call-site.%struncated.len=%d' % ('chan-desc.' if cd else '', L), 'c_si4', dict(length=L, chan_desc=cd, cut=1)))
+    # downstream consumer of the hopping list: the SETFH command trxcon composes from it (shared with C05)
+    for band, n in ((900, 64), (1800, 8), (1900, 8), (850, 8)):
+        out.append(('trxcon.composes.SETFH.band%d.n=%d' % (band, n), 'c_setfh_compose', dict(band=band, n=n)))
     out.append(('validation', 'c_validate', dict(seed=seed)))
     return out
 
 
 def run_job(hid, fname, shape, timeout_ms):
+    if fname == 'c_setfh_compose':
+        from . import trxc
+        return trxc.c_setfh_compose(hid, timeout_ms=timeout_ms, **shape)
     return globals()[fname](hid, timeout_ms=timeout_ms, **shape)
 
 
@@ -383,6 +389,9 @@ def replay_si4(body):
 def replay(body):
     sh = body['shape']; i = body['inputs']
     if body.get('func') == 'c_si4': return replay_si4(body)
+    if body.get('func') == 'c_setfh_compose':
+        from . import trxc
+        return trxc.replay(body)
     if 'length' not in sh: return 0, 'validation job has no symbolic replay'
     ca = {}
     for a in sh['window']:
